@@ -18,6 +18,7 @@ pub mod c10;
 pub mod c11;
 pub mod c12;
 pub mod c13;
+pub mod c20;
 pub mod logparse;
 pub mod simchecks;
 
